@@ -1,7 +1,36 @@
-import VermouthModel.Proto
-open Proto
+import VermouthModel.C06
+open Proto Iso C06
 
-/-- placeholder driver for C06: replaced when the model is written -/
-def handle (_ : Unit) (_ : List Tok) : Unit × String := ((), "bad-op")
+def nodeOf (t : Tok) : Option (Int × Int) := do
+  match ← t.list? with
+  | [k, c] => pure (← k.int?, ← c.int?)
+  | _ => none
+
+def edgeOf (t : Tok) : Option (Int × Int × Int) := do
+  match ← t.list? with
+  | [u, v, c] => pure (← u.int?, ← v.int?, ← c.int?)
+  | _ => none
+
+def graphOf (ns es : Tok) : Option Graph := do
+  pure { nodes := ← (← ns.list?).mapM nodeOf, edges := ← (← es.list?).mapM edgeOf }
+
+def pairOf (t : Tok) : Option (Int × Int) := nodeOf t
+
+def handle (_ : Unit) (toks : List Tok) : Unit × String :=
+  let r : Option String :=
+    match toks with
+    | [Tok.str "iso", gn, ge, sn, se] => do
+        pure (answerIso (← graphOf gn ge) (← graphOf sn se))
+    | [Tok.str "sym", gn, ge, sn, se, out] => do
+        let sg ← graphOf sn se
+        let o ← (← out.list?).mapM ints?
+        pure (answerSym (← graphOf gn ge) sg (o.map (totalOf sg)))
+    | [Tok.str "lcs", gn, ge, sn, se] => do
+        pure (answerLcs (← graphOf gn ge) (← graphOf sn se))
+    | [Tok.str "lcssym", gn, ge, sn, se, out] => do
+        let o ← (← out.list?).mapM (fun m => do (← m.list?).mapM pairOf)
+        pure (answerLcsSym (← graphOf gn ge) (← graphOf sn se) o)
+    | _ => none
+  ((), r.getD "bad-op")
 
 def main : IO Unit := runDriver handle ()
